@@ -70,7 +70,9 @@ def run_workers(cfgs, shadow, workdir, jobs):
         time.sleep(0.05)
         for w in list(running):
             rc = w['proc'].poll()
-            limit = float(w['cfg'].get('kill_after_s', 3 * 3600))
+            limit = float(w['cfg'].get(
+                'kill_after_s',
+                1800 if w['cfg'].get('tier') == 'quick' else 4 * 3600))
             if rc is None and time.time() - w['start'] > limit:
                 w['proc'].kill()
                 w['proc'].wait()
@@ -132,6 +134,26 @@ def main():
             return report(prop, mod, args, seed, done, t0, replay=True)
 
         cfgs = mod.configs(args.tier, seed)
+        if args.tier == 'thorough' and getattr(mod, 'AUTO_SHARD', True):
+            # Hypothesis is single-core: split every generated campaign
+            # that the module did not shard itself over the cores (each
+            # shard has its own seed; together they run twice the cases)
+            plain = [c for c in cfgs if c.get('mode', 'hyp') == 'hyp' and
+                     'shard' not in c and 'n' in c]
+            k = max(1, min(8, args.jobs // max(1, len(cfgs))))
+            if plain and k > 1:
+                out_ = []
+                for c in cfgs:
+                    if c not in plain:
+                        out_.append(c)
+                        continue
+                    for sh in range(k):
+                        d = dict(c)
+                        d['shard'] = sh
+                        d['name'] = '%s-s%d' % (c.get('name', 'cfg'), sh)
+                        d['n'] = max(1, 2 * int(c['n']) // k)
+                        out_.append(d)
+                cfgs = out_
         only = os.environ.get('VERIF_ONLY')
         if only:
             cfgs = [c for c in cfgs if only in c.get('name', '')]
